@@ -66,4 +66,11 @@ def allPairsOrdered : List Text → Bool
   | [] => true
   | x :: rest => rest.all (fun y => !(natLt y x)) && allPairsOrdered rest
 
+/-- every two different elements are comparable one way or the other; together with
+    `allPairsOrdered` of the sorted list this says the comparator is a strict total order on the
+    elements present (otherwise `slices.SortFunc`'s result is unspecified) -/
+def pairwiseComparable : List Text → Bool
+  | [] => true
+  | x :: rest => rest.all (fun y => x = y || natLt x y || natLt y x) && pairwiseComparable rest
+
 end GoSnaps
